@@ -221,6 +221,17 @@ def build(tier, repo):
         elif isinstance(n, ast.Assign) and isinstance(n.targets[0], ast.Subscript) and isinstance(n.value, ast.Subscript) \
                 and is_saved(n.targets[0]) != is_saved(n.value) and norm0(n.targets[0]) == norm0(n.value):
             d = "restore" if is_saved(n.value) else "save"
+        if d is None and isinstance(n, ast.Assign) and len(n.targets) == 1:
+            # scalar state: `step = step0`, `phi, gap = phi0, gap0`
+            t_, v_ = n.targets[0], n.value
+            prs = list(zip(t_.elts, v_.elts)) if isinstance(t_, ast.Tuple) and isinstance(v_, ast.Tuple) and len(t_.elts) == len(v_.elts) \
+                else [(t_, v_)]
+            ds = set()
+            for a_, b_ in prs:
+                if isinstance(a_, ast.Name) and isinstance(b_, ast.Name) and is_saved(a_) != is_saved(b_) and norm0(a_) == norm0(b_):
+                    ds.add("restore" if is_saved(b_) else "save")
+            if len(ds) == 1:
+                d = ds.pop()
         if d is None:
             continue
         g = n
@@ -269,6 +280,15 @@ def build(tier, repo):
     nf = factory_state_rule(r6, w)
     chk.note_analysed("persistent_factory_matrices", nf)
     r6.require(6)
+
+    r7 = chk.rule("C07-R7", "paired kernel calls agree: d := d.*s./z (tbmv/tbsv on the same diagonal) address the same block; Householder reflectors are "
+                            "applied (ormqr) with the offset and count they were computed with (geqrf); consecutive double scalings W^{-1}W^{-T} keep one order per factory",
+                  "d/di, W z = W^{-T} s = lambda after every update; all five solvers solve the same system")
+    npair = paired_calls_rule(r7, w)
+    nex = exclusive_contribution_rule(r4, w)
+    r4.ok("kkt_*: additive contributions are not placed in alternative arms", "src/python/misc.py", "%d alternative-arm pairs examined" % nex)
+    chk.note_analysed("paired_kernel_calls", npair)
+    r7.require(5)
 
     r5 = chk.rule("C07-R5", "block-offset discipline in compute_scaling, update_scaling and the kkt_* factories", "scalings and reduced systems address the right blocks")
     rc.offsets_rule(r5, w, [("misc", "compute_scaling"), ("misc", "update_scaling"), ("misc", "kkt_ldl.*"), ("misc", "kkt_ldl2.*"),
@@ -322,6 +342,43 @@ def fallback_rule(r4, w):
                                  "this assembly of %s adds %s but the one at %s adds %s: the two code paths factor different matrices"
                                  % (target, sorted(core), base[0], sorted(base[1])), sorted(base[1]), sorted(core))
 
+
+
+def exclusive_contribution_rule(rule, w):
+    """Additive contributions to one matrix (`S += H`, `syrk(A, S, beta = 1.0)`) are
+    independent terms of a sum: two *different* terms must not sit in alternative arms of one
+    if / elif chain (one would be dropped whenever the other is present)."""
+    mm = w.mods["misc"]
+    n = 0
+    for q, fn in mm.funcs.items():
+        if not q.startswith("kkt_") or "." in q:
+            continue
+        for st in ast.walk(fn):
+            if not (isinstance(st, ast.If) and st.orelse):
+                continue
+            def terms(stmts):
+                out = {}
+                for x in stmts:
+                    for y in ([x] if not isinstance(x, ast.If) else []):
+                        if isinstance(y, ast.AugAssign) and isinstance(y.op, ast.Add):
+                            out.setdefault(pf.norm_expr(y.target).split("[:")[0], set()).add("+= " + pf.norm_expr(y.value))
+                        elif isinstance(y, ast.Expr) and isinstance(y.value, ast.Call) and pf.call_name(y.value) in ("base.syrk", "blas.syrk") \
+                                and len(y.value.args) >= 2 and _kw(y.value, "beta") not in (None, "0.0"):
+                            out.setdefault(pf.norm_expr(y.value.args[1]), set()).add("syrk(%s)" % pf.norm_expr(y.value.args[0]))
+                return out
+            a = terms(st.body)
+            orelse = st.orelse
+            b = terms(orelse[0].body) if len(orelse) == 1 and isinstance(orelse[0], ast.If) else terms(orelse)
+            for tgt in set(a) & set(b):
+                n += 1
+                key = "misc.%s:contributions to %s in alternative arms" % (q, tgt)
+                if a[tgt] == b[tgt]:
+                    rule.ok(key, mm.where(st, fn), sorted(a[tgt]))
+                else:
+                    rule.violation(key, mm.where(st, fn),
+                                   "%s receives `%s` in one arm and `%s` in the alternative arm of the same if-chain: the terms of the sum have become "
+                                   "mutually exclusive" % (tgt, sorted(a[tgt])[0], sorted(b[tgt])[0]), "independent `if` statements", pf.norm_expr(st.test)[:60])
+    return n
 
 
 def _parents(n, stop):
@@ -605,3 +662,97 @@ def _first_read_before_full_def(stmts, P):
                 if any(isinstance(a, ast.Name) and a.id == P for a in x.args) and nm not in READS:
                     partial.append("%s(..%s..)" % (nm, P))
     return ("undecided", None, "no read of %s found in factor()" % P)
+
+
+def _kw(call, name, default=None):
+    for k in call.keywords:
+        if k.arg == name:
+            return " ".join(ast.unparse(k.value).split())
+    return default
+
+
+def paired_calls_rule(rule, w):
+    mm = w.mods["misc"]
+    n = 0
+    for q, fn in mm.funcs.items():
+        if "." in q:
+            continue
+        # (a) tbmv / tbsv on the same diagonal in consecutive statements
+        for blk in mr_blocks(fn):
+            for s1, s2 in zip(blk, blk[1:]):
+                if not all(isinstance(x, ast.Expr) and isinstance(x.value, ast.Call) for x in (s1, s2)):
+                    continue
+                c1, c2 = s1.value, s2.value
+                n1, n2 = pf.call_name(c1), pf.call_name(c2)
+                if {n1, n2} == {"blas.tbmv", "blas.tbsv"} and len(c1.args) > 1 and len(c2.args) > 1 \
+                        and pf.norm_expr(c1.args[1]) == pf.norm_expr(c2.args[1]):
+                    n += 1
+                    key = "misc.%s:tbmv/tbsv on %s" % (q, pf.norm_expr(c1.args[1]))
+                    k1 = {k: _kw(c1, k) for k in ("n", "k", "ldA", "offsetA", "offsetx", "incx")}
+                    k2 = {k: _kw(c2, k) for k in ("n", "k", "ldA", "offsetA", "offsetx", "incx")}
+                    if k1 == k2:
+                        rule.ok(key, mm.where(s1, fn), {k: v for k, v in k1.items() if v is not None})
+                    else:
+                        d_ = {k: (k1[k], k2[k]) for k in k1 if k1[k] != k2[k]}
+                        rule.violation(key, mm.where(s2, fn),
+                                       "the multiplication by s and the division by z address different parts of %s: %s"
+                                       % (pf.norm_expr(c1.args[1]), d_), k1, k2)
+        # (b) consecutive scalings of one vector: order of (trans='T', inverse) then (inverse) is the same everywhere in the factory
+        orders = []
+        for blk in mr_blocks(fn):
+            for s1, s2 in zip(blk, blk[1:]):
+                if not all(isinstance(x, ast.Expr) and isinstance(x.value, ast.Call) for x in (s1, s2)):
+                    continue
+                c1, c2 = s1.value, s2.value
+                if pf.call_name(c1) in ("scale", "misc.scale") and pf.call_name(c2) == pf.call_name(c1) and c1.args and c2.args \
+                        and pf.norm_expr(c1.args[0]) == pf.norm_expr(c2.args[0]):
+                    orders.append(((_kw(c1, "trans", "'N'"), _kw(c1, "inverse", "'N'")), (_kw(c2, "trans", "'N'"), _kw(c2, "inverse", "'N'")), s1))
+        if len(orders) >= 2:
+            ref = orders[0][:2]
+            for o in orders:
+                n += 1
+                key = "misc.%s:double scaling @%s" % (q, pf.enclosing_function(o[2]).name)
+                if o[:2] == ref:
+                    rule.ok(key, mm.where(o[2], fn), str(ref))
+                else:
+                    rule.violation(key, mm.where(o[2], fn),
+                                   "the two scalings are applied in the order %s here and %s elsewhere in the factory: for 's' blocks the scalings do "
+                                   "not commute, so factor() and solve() describe different systems" % (o[:2], ref), ref, o[:2])
+        # (c) geqrf -> ormqr
+        qr = {}
+        for x in ast.walk(fn):
+            if isinstance(x, ast.Call) and pf.call_name(x) == "lapack.geqrf" and len(x.args) >= 2:
+                qr[(pf.norm_expr(x.args[0]), pf.norm_expr(x.args[1]))] = x
+        for x in ast.walk(fn):
+            if isinstance(x, ast.Call) and pf.call_name(x) == "lapack.ormqr" and len(x.args) >= 3:
+                g = qr.get((pf.norm_expr(x.args[0]), pf.norm_expr(x.args[1])))
+                if g is None:
+                    continue
+                n += 1
+                key = "misc.%s:ormqr(%s, %s) matches its geqrf @%s:%s" % (q, pf.norm_expr(x.args[0]), pf.norm_expr(x.args[1]),
+                                                                          pf.enclosing_function(x).name, pf.norm_expr(x.args[2]))
+                bad = []
+                if _kw(x, "offsetA", "0") != _kw(g, "offsetA", "0"):
+                    bad.append("offsetA %s vs %s" % (_kw(x, "offsetA", "0"), _kw(g, "offsetA", "0")))
+                if _kw(x, "k") is not None and _kw(g, "n") is not None and _kw(x, "k") != _kw(g, "n"):
+                    bad.append("k %s vs n %s" % (_kw(x, "k"), _kw(g, "n")))
+                if _kw(x, "ldA") != _kw(g, "ldA"):
+                    bad.append("ldA %s vs %s" % (_kw(x, "ldA"), _kw(g, "ldA")))
+                if _kw(x, "side", "'L'") == "'L'" and _kw(x, "m") is not None and _kw(g, "m") is not None and _kw(x, "m") != _kw(g, "m"):
+                    bad.append("m %s vs %s" % (_kw(x, "m"), _kw(g, "m")))
+                if bad:
+                    rule.violation(key, mm.where(x, fn),
+                                   "the reflectors stored in %s by geqrf are applied with different addressing: %s" % (pf.norm_expr(x.args[0]), "; ".join(bad)),
+                                   "same offsetA / ldA / count as the geqrf call", bad)
+                else:
+                    rule.ok(key, mm.where(x, fn))
+    return n
+
+
+def mr_blocks(fn):
+    from ..modeling_rules import _blocks
+    out = _blocks(fn)
+    for d in ast.walk(fn):
+        if isinstance(d, ast.FunctionDef) and d is not fn:
+            out += _blocks(d)
+    return out
